@@ -260,6 +260,7 @@ func e3Parse(data string) ([]e3Entry, error) {
 	if data == "" {
 		return out, nil
 	}
+	data = strings.ReplaceAll(data, "\r\n", "\n") // a CR before a LF is a line end, not content (no E3 value holds one)
 	lines := strings.Split(data, "\n")
 	if strings.HasSuffix(data, "\n") {
 		lines = lines[:len(lines)-1]
